@@ -74,8 +74,8 @@ def main(argv):
             seed, target, 'TARGET' if by_target else ('other ' if det else 'MISSED'),
             {p: (v[0]['rule'] if isinstance(v, list) else v[:40]) for p, v in det.items()})
         print(line)
-        if not det:
-            missed.append(seed)
+        if not isinstance(det.get(target), list):
+            missed.append(seed)     # not reported as a violation by its target property (analysis errors do not count)
         if write:
             meta['detection_current'] = det
             meta['expected_detection'] = expected
